@@ -21,10 +21,11 @@ var alpha = []byte{'a', '\n', 'b'}
 // Input is one execution: the chunks are written in order; the underlying writer accepts Budget
 // bytes in total and then stops short with an error (Budget < 0: never fails).
 type Input struct {
-	Prefix string       `json:"prefix"`
-	Chunks []string     `json:"chunks"`
-	Budget int          `json:"budget"`
-	Nested *NestedInput `json:"nested,omitempty"`
+	Prefix  string        `json:"prefix"`
+	Chunks  []string      `json:"chunks"`
+	Budget  int           `json:"budget"`
+	Nested  *NestedInput  `json:"nested,omitempty"`
+	Writers *WritersInput `json:"live_writers,omitempty"`
 }
 
 type lim struct {
@@ -206,7 +207,7 @@ func shards(tier string) []string {
 		}
 	}
 	out = append(out, largeShards()...)
-	return out
+	return append(out, "writers")
 }
 
 func texts(n int, lead string, f func(string)) {
@@ -226,8 +227,12 @@ func texts(n int, lead string, f func(string)) {
 func run(c *core.Ctx) {
 	var pi, n, k int
 	short := false
-	c.Res.Bound = fmt.Sprintf("text length <= %d over {a,b,\\n}; %d prefixes; all compositions; every stop point; <=1 empty write; nested writers: %d x %d prefixes, every sequence of <= %d writes of %d chunks to the inner or the outer writer, every stop point; every length 1..700 in one Write (at a line start, with and without a final line break, after a complete line; 3 prefixes); large writes: texts of 4096, 4097, 8192, 8193 (thorough also 4095, 8191, 12289) bytes (around the block sizes 4096 and 8192) with line breaks never, always, every 7th and every 4096th byte, in one call and split at byte 4096, 2 prefixes, every stop point (every third beyond 9000 output bytes, all next to a multiple of 4096)", maxLen(c.Tier), len(prefixes), len(nestPrefixes), len(nestPrefixes), nestedDepth(c.Tier), len(nestChunks))
+	c.Res.Bound = fmt.Sprintf("text length <= %d over {a,b,\\n}; %d prefixes; all compositions; every stop point; <=1 empty write; nested writers: %d x %d prefixes, every sequence of <= %d writes of %d chunks to the inner or the outer writer, every stop point; 1..40 writers alive at once with distinct or equal prefixes of 1..33 bytes, written to in turn; every length 1..700 in one Write (at a line start, with and without a final line break, after a complete line; 3 prefixes); large writes: texts of 4096, 4097, 8192, 8193 (thorough also 4095, 8191, 12289) bytes (around the block sizes 4096 and 8192) with line breaks never, always, every 7th and every 4096th byte, in one call and split at byte 4096, 2 prefixes, every stop point (every third beyond 9000 output bytes, all next to a multiple of 4096)", maxLen(c.Tier), len(prefixes), len(nestPrefixes), len(nestPrefixes), nestedDepth(c.Tier), len(nestChunks))
 	var oi, ii int
+	if c.Shard == "writers" {
+		runWriters(c)
+		return
+	}
 	if _, err := fmt.Sscanf(c.Shard, "len/%d", &oi); err == nil {
 		runLengths(c, oi)
 		return
@@ -337,6 +342,10 @@ func replay(tier string, raw json.RawMessage) (bool, string, string) {
 	var in Input
 	if err := json.Unmarshal(raw, &in); err != nil {
 		return false, "", "bad input: " + err.Error()
+	}
+	if in.Writers != nil {
+		ok, v := replayWriters(*in.Writers)
+		return !ok, v.fingerprint, fmt.Sprintf("expected %s observed %s", v.expected, v.observed)
 	}
 	if in.Nested != nil {
 		ok, v := checkNested(*in.Nested)
